@@ -451,7 +451,12 @@ def r3_lazy_tool_reset(ctx, sym):
         def reset(*a, **k):
             rec.events.append(('reset', a, k))
             me.attrs['_tool_data']['tifa'] = fresh
-        tool = Obj('tool')
+        # the registration is pedal's own class (its reset is the tool's function), so helper methods added to it
+        # are found
+        try:
+            tool = symexec.self_obj(ctx.repo.module('pedal.core.tool'), 'ToolRegistration', name='tifa')
+        except (AnalysisError, KeyError):
+            tool = Obj('tool')
         symexec.method(tool, 'reset', reset)
         me.attrs['TOOLS'] = {'tifa': tool}
         symexec.method(me, '__setitem__', lambda k, v: me.attrs['_tool_data'].__setitem__(k, v))
